@@ -1,9 +1,220 @@
 package simfs
 
-// Shadow tracks what is durable (power-loss model M2). Filled in shadow_impl.
-type Shadow struct{ impl *shadowImpl }
+import (
+	"os"
+	"path/filepath"
+	"sort"
+	"strings"
+)
 
-type shadowImpl struct{}
+// Shadow tracks what would survive a POWER LOSS (crash model M2) for the files of one FS whose path
+// satisfies Class: file content is durable as of the file's last fsync (nothing if never synced);
+// a directory entry (create, rename, remove) is durable once its directory was fsynced afterwards —
+// except that fsyncing a newly created file also makes its creation durable (what ext4/xfs do).
+// Directories themselves are taken as durable when created. Paths outside Class behave as in M1.
+// The model only ever takes away what the code did not make durable; it never reorders or corrupts
+// synced data, so a violation under M2 that does not occur under M1 means a missing fsync.
+type Shadow struct {
+	// DataOnly keeps the namespace as the process left it and only cuts file contents back to
+	// their last fsync (no assumption about directory-entry durability).
+	DataOnly bool
+	Class   func(rel string) bool
+	live    map[string]*node
+	dur     map[string]*node
+	pending []nsop
+	nodes   int
+}
 
-func (s *Shadow) observe(f *FS, ev *Event)        {}
-func (s *Shadow) synced(f *FS, op, rel string)    {}
+type node struct {
+	id      int
+	durable []byte
+	ever    bool // ever fsynced
+}
+
+type nsop struct {
+	kind     string // create rename remove
+	path, p2 string
+	n        *node
+}
+
+func NewShadow(class func(rel string) bool) *Shadow {
+	return &Shadow{Class: class, live: map[string]*node{}, dur: map[string]*node{}}
+}
+
+func (s *Shadow) in(rel string) bool { return s.Class == nil || s.Class(rel) }
+
+func (s *Shadow) observe(f *FS, ev *Event) {
+	switch ev.Op {
+	case "create":
+		if !s.in(ev.Path) {
+			return
+		}
+		s.nodes++
+		n := &node{id: s.nodes}
+		s.live[ev.Path] = n
+		s.pending = append(s.pending, nsop{"create", ev.Path, "", n})
+	case "open-w", "open-trunc":
+		if s.in(ev.Path) && s.live[ev.Path] == nil {
+			// a file that existed before tracking began: durable as it is
+			s.nodes++
+			n := &node{id: s.nodes, ever: true}
+			if b, err := os.ReadFile(filepath.Join(f.Root, ev.Path)); err == nil {
+				n.durable = b
+			}
+			s.live[ev.Path], s.dur[ev.Path] = n, n
+		}
+	case "rename":
+		n := s.live[ev.Path]
+		if n == nil && !s.in(ev.Path2) {
+			return
+		}
+		if n == nil {
+			// an untracked file moves into the class: durable content = current content at next sync
+			s.nodes++
+			n = &node{id: s.nodes}
+		}
+		delete(s.live, ev.Path)
+		if s.in(ev.Path2) {
+			s.live[ev.Path2] = n
+		}
+		s.pending = append(s.pending, nsop{"rename", ev.Path, ev.Path2, n})
+	case "link":
+		if n := s.live[ev.Path]; n != nil && s.in(ev.Path2) {
+			s.live[ev.Path2] = n
+			s.pending = append(s.pending, nsop{"create", ev.Path2, "", n})
+		}
+	case "remove":
+		if n := s.live[ev.Path]; n != nil {
+			delete(s.live, ev.Path)
+			s.pending = append(s.pending, nsop{"remove", ev.Path, "", n})
+		}
+	case "removeall":
+		var ps []string
+		for p := range s.live {
+			if p == ev.Path || strings.HasPrefix(p, ev.Path+"/") {
+				ps = append(ps, p)
+			}
+		}
+		sort.Strings(ps)
+		for _, p := range ps {
+			n := s.live[p]
+			delete(s.live, p)
+			s.pending = append(s.pending, nsop{"remove", p, "", n})
+		}
+	}
+}
+
+func (s *Shadow) apply(op nsop) {
+	switch op.kind {
+	case "create":
+		s.dur[op.path] = op.n
+	case "rename":
+		if s.dur[op.path] == op.n {
+			delete(s.dur, op.path)
+		}
+		if s.in(op.p2) {
+			s.dur[op.p2] = op.n
+		}
+	case "remove":
+		if s.dur[op.path] == op.n {
+			delete(s.dur, op.path)
+		}
+	}
+}
+
+// synced is called after a successful fsync of a file (op "sync") or directory (op "syncdir").
+func (s *Shadow) synced(f *FS, op, rel string) {
+	if op == "syncdir" {
+		var rest []nsop
+		for _, p := range s.pending {
+			if filepath.Dir(p.path) == rel || p.p2 != "" && filepath.Dir(p.p2) == rel {
+				s.apply(p)
+			} else {
+				rest = append(rest, p)
+			}
+		}
+		s.pending = rest
+		return
+	}
+	n := s.live[rel]
+	if n == nil {
+		return
+	}
+	if b, err := os.ReadFile(filepath.Join(f.Root, rel)); err == nil {
+		n.durable = b
+		n.ever = true
+	}
+	// fsync of a new file makes its creation durable
+	var rest []nsop
+	for _, p := range s.pending {
+		if p.kind == "create" && p.n == n && p.path == rel {
+			s.apply(p)
+		} else {
+			rest = append(rest, p)
+		}
+	}
+	s.pending = rest
+}
+
+// PowerLossImage materialises in dst what survives a power loss just before event ev: the M1 image
+// (process-crash state) with every file of the class cut back to its durable content and every
+// directory entry of the class reverted to the durable namespace.
+func (f *FS) PowerLossImage(dst string, ev *Event) error {
+	if err := f.Image(dst, ev, 0); err != nil {
+		return err
+	}
+	s := f.Shadow
+	if s == nil {
+		return nil
+	}
+	if s.DataOnly {
+		var ps []string
+		for p := range s.live {
+			ps = append(ps, p)
+		}
+		sort.Strings(ps)
+		for _, p := range ps {
+			n := s.live[p]
+			var content []byte
+			if n.ever {
+				content = n.durable
+			}
+			if err := os.WriteFile(filepath.Join(dst, p), content, 0o666); err != nil {
+				return err
+			}
+		}
+		return nil
+	}
+	// live entries whose current name is not durable disappear; durable names come back
+	var lives []string
+	for p := range s.live {
+		lives = append(lives, p)
+	}
+	sort.Strings(lives)
+	for _, p := range lives {
+		if s.dur[p] != s.live[p] {
+			os.Remove(filepath.Join(dst, p))
+		}
+	}
+	var durs []string
+	for p := range s.dur {
+		durs = append(durs, p)
+	}
+	sort.Strings(durs)
+	for _, p := range durs {
+		n := s.dur[p]
+		target := filepath.Join(dst, p)
+		os.MkdirAll(filepath.Dir(target), 0o777)
+		var content []byte
+		if n.ever {
+			content = n.durable
+		}
+		if err := os.WriteFile(target, content, 0o666); err != nil {
+			return err
+		}
+	}
+	return nil
+}
+
+// PendingDirOps reports how many directory operations are not yet durable (coverage probe).
+func (s *Shadow) PendingDirOps() int { return len(s.pending) }
